@@ -52,9 +52,19 @@ theorem vpct_change_eq (xs : List (Option Rat)) (n : Int) :
   simp only [GenMap.vpct_change.run, C13.vpctChange, decide_eq_true_eq, List.map_id']
   rw [hp _ (fun a b => by cases a <;> cases b <;> simp [pct]), hp _ (fun a b => by cases a <;> cases b <;> simp [pct])]
 
+theorem fill_mask_eq (xs : List (Option Rat)) (mask : Option Rat → Bool) (value : Option Rat) :
+    GenMap.fill_mask.run xs mask value = C13.fillMask mask value xs := by
+  simp only [GenMap.fill_mask.run, C13.fillMask]
+
 theorem fill_eq (xs : List (Option Rat)) (value : Option Rat) :
     GenMap.fill.run xs value = C13.fill value xs := by
-  simp only [GenMap.fill.run, C13.fill, C13.fillMask]
+  simp only [GenMap.fill.run, C13.fill, fill_mask_eq]
+
+theorem ratAbs_eq (q : Rat) : Gen.ratAbs q = C13.rabs q := rfl
+theorem abs_eq (xs : List (Option Rat)) : GenMap.abs.run xs = C13.abs xs := rfl
+theorem vabs_eq (xs : List (Option Rat)) : GenMap.vabs.run xs = C13.vabs xs := rfl
+/-- `drop_none` yields exactly the non-null items, in order -/
+theorem drop_none_eq (xs : List (Option Rat)) : GenMap.drop_none.run xs = xs.filter Option.isSome := rfl
 
 theorem vclip_eq (xs : List (Option Rat)) (lower upper : Option Rat) :
     GenMap.vclip.run xs lower upper = C13.vclip lower upper xs := by
@@ -147,8 +157,16 @@ theorem bfill_spec (xs : List (Option Rat)) (mask : Option Rat → Bool) (value 
     GenMap.bfill_mask.run xs mask value = Spec.bfillS mask (value.getD none) xs := by
   rw [bfill_mask_eq, C13.bfill_eq_bfillS]
 
+theorem fill_mask_spec (xs : List (Option Rat)) (mask : Option Rat → Bool) (v : Option Rat) :
+    GenMap.fill_mask.run xs mask v = Spec.fillS mask v xs := by rw [fill_mask_eq]; rfl
+theorem abs_spec (xs : List (Option Rat)) : GenMap.abs.run xs = Spec.absS xs := by
+  rw [abs_eq]; exact (C13.abs_eq_absS xs).2
+theorem vabs_spec (xs : List (Option Rat)) : GenMap.vabs.run xs = Spec.absS xs := by
+  rw [vabs_eq]; exact (C13.abs_eq_absS xs).1
+
 theorem functions_present :
-    GenMap.functions = ["shift", "vclip", "fill", "ffill_mask", "ffill", "bfill_mask", "bfill", "vshift", "vdiff",
-      "vpct_change"] := rfl
+    ∀ n ∈ ["shift", "vclip", "fill_mask", "fill", "ffill_mask", "ffill", "bfill_mask", "bfill", "vshift", "vdiff",
+      "vpct_change", "abs", "vabs", "drop_none"], n ∈ GenMap.functions := by
+  simp [GenMap.functions]
 
 end Tv.C13Gen
